@@ -17,6 +17,7 @@
 package main
 
 import (
+	"context"
 	"fmt"
 	"sort"
 	"strings"
@@ -43,6 +44,7 @@ const (
 var notClientOps = map[string]bool{"Replicate": true}
 
 var faults = []string{
+	"unsigned-with-ttl-2-from-mtls-peer",
 	"unsigned", "wrong-key", "body-changed-after-signing", "meta-changed-after-signing",
 	"session-expired", "session-tampered", "session-other-container", "session-other-verb",
 	"bearer-expired", "bearer-tampered", "bearer-not-from-container-owner", "bearer-for-another-user",
@@ -69,6 +71,9 @@ type tcase struct {
 	// RemoteHolds: the local node is a container node but the objects are held by the two other
 	// container nodes (reachable fake nodes), so object data and headers come over the network.
 	RemoteHolds bool
+	// Auth: "" = signed request; "mtls" = NO verification header, TTL 1, gRPC peer authenticated by
+	// mutual TLS (the other authentication path the server accepts)
+	Auth string
 	// thorough tier only
 	Scheme string // request signature scheme: "" (ECDSA_SHA512) | rfc6979 | walletconnect
 	Raw    bool   // raw flag of Get/Head/GetRange
@@ -88,6 +93,9 @@ func (c tcase) String() string {
 	}
 	if c.RemoteHolds {
 		s += " objectsHeldByOtherContainerNodes"
+	}
+	if c.Auth != "" {
+		s += " auth=unsigned-from-mtls-peer"
 	}
 	if c.Scheme != "" {
 		s += " scheme=" + c.Scheme
@@ -121,7 +129,26 @@ func setup(c tcase, twin bool) (cfg sw.Config, p sw.Params, post func(w *sw.Worl
 	if c.Method == "Put" && c.Shape == "chunk" && !isSignatureFault(c.Fault) {
 		return cfg, p, nil, false // tokens and ACL are evaluated on the init message only
 	}
+	if c.Auth == "mtls" {
+		switch c.Fault {
+		case "unsigned-with-ttl-2-from-mtls-peer", "basic-acl-denied", "eacl-denied-on-request-header", "eacl-denied-on-object-header":
+		default:
+			return cfg, p, nil, false // signature and token faults belong to the signed path
+		}
+		if c.TTL != 1 && c.Fault != "unsigned-with-ttl-2-from-mtls-peer" || c.ACLBlind || c.RemoteHolds {
+			return cfg, p, nil, false
+		}
+	}
 	switch c.Fault {
+	case "unsigned-with-ttl-2-from-mtls-peer":
+		// an unsigned request is acceptable from an authenticated peer with TTL 1 only
+		if c.Auth != "mtls" || c.TTL != 2 || c.ACLBlind || c.RemoteHolds {
+			return cfg, p, nil, false
+		}
+		p.Signer = sw.RemoteA
+		if twin {
+			p.TTL = 1
+		}
 	case "unsigned":
 		if !twin {
 			post = func(_ *sw.World, reqs []any) error { sw.Unsign(victim(reqs)); return nil }
@@ -265,7 +292,10 @@ func run(c tcase, twin bool) (outcome, bool, error) {
 	if err != nil {
 		return outcome{}, true, err
 	}
-	if err := sw.SignAllScheme(reqs, p.Signer, c.Scheme); err != nil {
+	ctx := context.Background()
+	if c.Auth == "mtls" {
+		ctx = sw.PeerContext(p.Signer) // the requester is the authenticated peer, nothing is signed
+	} else if err := sw.SignAllScheme(reqs, p.Signer, c.Scheme); err != nil {
 		return outcome{}, true, err
 	}
 	if post != nil {
@@ -279,7 +309,7 @@ func run(c tcase, twin bool) (outcome, bool, error) {
 	}
 	errsBefore, _ := w.ShardState()
 	w.Rec.Reset()
-	res, herr := sw.Invoke(w.Srv, sw.ObjectServiceIface, c.Method, reqs)
+	res, herr := sw.InvokeCtx(ctx, w.Srv, sw.ObjectServiceIface, c.Method, reqs)
 	if herr != nil {
 		return outcome{}, true, herr
 	}
@@ -320,7 +350,7 @@ func run(c tcase, twin bool) (outcome, bool, error) {
 func intendedReason(c tcase, o outcome) bool {
 	msg := o.Detail
 	switch {
-	case isSignatureFault(c.Fault):
+	case isSignatureFault(c.Fault) || c.Fault == "unsigned-with-ttl-2-from-mtls-peer":
 		return o.Code == codeSignature
 	case c.Fault == "session-expired":
 		return o.Code == codeTokenExpired
@@ -406,6 +436,7 @@ func main() {
 	removed := map[string]bool{}
 	vacuous := map[string]string{}
 	otherReason := map[string]string{}
+	mtlsNontrivial := map[string]int{}
 	notApplicable := map[string]bool{}
 
 	check := func(c tcase) {
@@ -427,6 +458,9 @@ func main() {
 		desc := fmt.Sprintf("%s -> status=%s %q messages=%d bodyBytes=%d effects=%v shardErrorCounter+=%d treeDiff=%v; twin without the fault -> status=%s %q effects=%s",
 			c, got.Status, got.Detail, got.NMsg, got.BodySize, got.Effects, got.ErrDelta, got.TreeDiff, twin.Status, twin.Detail, effectClasses(twin.Effects))
 		key := c.op() + ":" + c.Fault
+		if c.Auth != "" {
+			key += ":unsigned-ttl1-mtls-peer"
+		}
 		if r.Replay != "" {
 			fmt.Println(desc)
 			fmt.Println("  trace of the faulty request:", got.Trace)
@@ -497,6 +531,9 @@ func main() {
 		}
 		mu.Lock()
 		perOpFault[c.op()+" x "+c.Fault]++
+		if c.Auth != "" {
+			mtlsNontrivial[c.op()+" x "+c.Fault]++
+		}
 		mu.Unlock()
 		r.Nontrivial(c.String())
 		if c.Fault == "eacl-denied-on-object-header" || c.TTL == 2 && c.LocalIn {
@@ -537,6 +574,7 @@ func main() {
 							cases = append(cases, tcase{Method: m, Shape: sh, Fault: f, TTL: ttl, LocalIn: in, ACLBlind: blind})
 						}
 						cases = append(cases, tcase{Method: m, Shape: sh, Fault: f, TTL: ttl, LocalIn: in, RemoteHolds: true})
+						cases = append(cases, tcase{Method: m, Shape: sh, Fault: f, TTL: ttl, LocalIn: in, Auth: "mtls"})
 						if r.Thorough() {
 							for _, scheme := range []string{"", "rfc6979", "walletconnect"} {
 								for _, raw := range []bool{false, true} {
@@ -601,9 +639,10 @@ func main() {
 	r.Set("outcome_classes", len(classes))
 	r.Set("outcome_class_counts", classes)
 	r.Set("nontrivial_cases_per_operation_and_fault", perOpFault)
+	r.Set("nontrivial_cases_on_the_unsigned_mtls_path", mtlsNontrivial)
 	r.Set("cases_whose_twin_has_no_effect", vacuous)
 	r.Set("cases_refused_for_another_reason_than_the_injected_fault", otherReason)
-	r.Rule("every exported method of protoobject.ObjectServiceServer (reflection) except Replicate x request shape x 15 faults x TTL {1,2} x local node {inside,outside} x (object-header eACL fault only) ACL checker {can, cannot} read local headers; non-trivial = the fault-free twin request in the same world is served or reaches storage/network AND the faulty request is refused for the intended reason; distinct = distinct case tuple")
+	r.Rule("every exported method of protoobject.ObjectServiceServer (reflection) except Replicate x request shape x 15 faults x TTL {1,2} x local node {inside,outside} x authentication path {signed; for the ACL faults also NO verification header + TTL 1 + mutually authenticated gRPC peer} x (object-header eACL fault only) ACL checker {can, cannot} read local headers; non-trivial = the fault-free twin request in the same world is served or reaches storage/network AND the faulty request is refused for the intended reason; distinct = distinct case tuple")
 	r.Assume("effects are observed at the engine method entries (overlay hook, pure recorder), at the client-constructor / replication transport (network) and as byte-level changes of the engine directory",
 		"FS chain reads (container, eACL table, netmap) are part of the checks and are not effects",
 		"opening the internal put streamer (Handlers.Put(ctx)) before the first message is verified is an allocation only (putsvc.Service.Put returns a struct) and is not counted as an effect",
